@@ -40,6 +40,7 @@ class C07Scenario(ChangeScenario):
         last: dict[tuple[str, str], tuple[float, int]] = {}     # (op, object name) -> (t_p, v_p)
         delivered_at: dict[tuple[str, str], float] = {}          # (name, rv) -> delivery time
         latency = any(d.startswith(('srv:delay', 'srv:fault')) for _, d in env.deviations) or env.time_while_ready or env.time_while_pending
+        latency = latency or bool(self.params.get('relisted'))    # slow handlers: events wait behind a RUNNING handler (serial processing, not the barrier)
         for t, k, p in env.obs:
             if k == 'srv' and p.get('rid') in post_rv and p['verb'] in ('serve', 'respond'):
                 name = p['path'].rstrip('/').split('/')[-1 if not p['path'].endswith('/status') else -2]
@@ -160,6 +161,15 @@ def scenarios(tier: str) -> tuple[list[C07Scenario], list[C07Scenario]]:
             holds = ([(t0, t0 + df, 'all')] if df > 0 else []) + [(t0 + df, t0 + de, 'echo')]
             grid.append(C07Scenario(handlers=handlers, lifecycle='one_by_one', user=[(1.0, 'create', 'a'), (t0, 'spec', 'a', 2)], settings=settings,
                                     holds=holds, horizon=t0 + 20.0, gap=3.0, nf=nf, rv0=rv0, delays=False, early_user=False, time_dev=False))
+    # the watch is re-listed (410 Gone) or reconnected while a change handler still runs: the listed state, taken BEFORE the handler's outcome is
+    # patched, waits in the object's queue behind the handler and is looked at after the PATCH - a view older than the operator's own write
+    for what, when, lc in itertools.product(('relist', 'reconnect'), (1.5, 2.5, 3.0), ('one_by_one', 'asap')):
+        handlers = [dict(id='c1', on='create', script=['ok~2']), dict(id='c2', on='create', script=['ok']),
+                    dict(id='u1', on='update', script=['ok~2']), dict(id='u2', on='update', script=['ok']), dict(id='ev', on='event', script=['ok'])]
+        grid.append(C07Scenario(handlers=handlers, lifecycle=lc, user=[(1.0, 'create', 'a'), (when, what), (10.0, 'spec', 'a', 2), (9.0 + when, what)], settings=settings,
+                                horizon=30.0, relisted=True, delays=False, early_user=False, time_dev=False))
+        grid.append(C07Scenario(handlers=handlers, lifecycle=lc, user=[(1.0, 'create', 'a'), (when, what), (when, 'status', 'a', 1)], settings=settings,
+                                holds=[(when, when + 4.0, 'echo')], horizon=30.0, relisted=True, delays=False, early_user=False, time_dev=False))
     # timing search on a few representatives: late responses, timers first, user edits at explorer-chosen points
     for nf, lc in itertools.product((0, 1), ('one_by_one', 'asap')):
         first = {0: 'ok', 1: 'ok+status1'}[nf]
